@@ -79,6 +79,9 @@ pub fn check(bc: &BuildCase, fam: &str, obs: &mut Obs) -> Result<(), Fail> {
             );
         }
     }
+    if let Some(d) = crate::fq::copy_differs(&built.qr) {
+        return fail("copy", format!("a copy of the symbol differs from it: {} ({:?})", d, bc));
+    }
     // copies of the symbol are the same symbol: `clone()`, and `clone_from` / `clone_into` onto a value that held a
     // LARGER symbol before (one case in four), must give exactly the same backing array - in particular nothing of the
     // larger symbol may survive outside the square
